@@ -195,6 +195,13 @@ fn pub_message(w: Option<&World>, path: &str, kind: &str) -> Result<publication:
             d.add_publish(Publish::new(None, uri(other, "intruder.cer"), content("intruder")));
             publication::Message::delta(d)
         }
+        // a URI that has the sender's base URI as a string prefix without
+        // lying below it (handles that are prefixes of one another)
+        "publish_lookalike" => {
+            let mut d = PublishDelta::empty();
+            d.add_publish(Publish::new(None, uri(&format!("{own}2"), "intruder.cer"), content("intruder")));
+            publication::Message::delta(d)
+        }
         "restore_own" => {
             // undoes "update_own"
             let mut d = PublishDelta::empty();
@@ -601,7 +608,7 @@ fn evaluate(w: &mut World, ctx: &Ctx, r: &Req) -> Obs {
                         bad("effect", "error reply came with a change".into());
                     }
                 }
-                ("publish_other", "error") | ("update_other", "error") | ("withdraw_other", "error") => {
+                ("publish_other", "error") | ("update_other", "error") | ("withdraw_other", "error") | ("publish_lookalike", "error") => {
                     if files_after != files_before {
                         bad("effect", "error reply came with a change".into());
                     }
@@ -644,7 +651,7 @@ pub fn requests(thorough: bool) -> Vec<Req> {
     }
     for key in keys {
         for path in senders {
-            for kind in ["list", "publish_own", "publish_other", "update_own", "update_other", "withdraw_other"] {
+            for kind in ["list", "publish_own", "publish_other", "publish_lookalike", "update_own", "update_other", "withdraw_other"] {
                 v.push(Req::Pub { key: key.into(), path: path.into(), kind: kind.into() });
             }
         }
